@@ -122,9 +122,19 @@ func genPubCacheCase(t *rapid.T) PubCacheCase {
 		Op: rapid.SampledFrom([]string{"json-list", "decode-bytes", "unmarshal-json", "decode-binary"}).Draw(t, "op")}
 }
 
+// strictPubCache switches the exclusion of the listed finding off (probe).
+var strictPubCache bool
+
 func checkPubCacheCase(c PubCacheCase, o *vt.Obs) error {
 	da, db := scalarOf(curveR1, c.A), scalarOf(curveR1, c.B)
 	if da.Cmp(db) == 0 {
+		return nil
+	}
+	if !strictPubCache && vt.Known(kfPubCache) {
+		// listed finding: the reuse is not performed at all (it would poison the process-wide key cache for the
+		// other sub-checks); counted
+		o.Excluded()
+		o.Label("excl:" + kfPubCache)
 		return nil
 	}
 	enc := func(d *big.Int) []byte {
